@@ -32,14 +32,35 @@ pub fn gen_hungarian(r: &mut Rng, tier: &str) -> Vec<Case> {
         .map(|i| {
             let adm = i % 8 != 7;
             let size = if i % 5 == 0 { maxn } else { 6 };
-            Case { stream: "hungarian", data: json!({"m": gen::gen_matrix(r, size, adm).to_json()}) }
+            // long rows (64 or more columns: vectorised paths, chunking), generic and caobab-shaped
+            let m = if i % 20 == 3 {
+                gen::gen_matrix_sized(r, 64, 72, true)
+            } else if i % 20 == 13 {
+                let places = 64 + r.usize(30);
+                gen::gen_matrix_caobab(r, places)
+            } else {
+                gen::gen_matrix(r, size, adm)
+            };
+            // the memory layout is not part of the matrix: every fourth case is handed over column-major
+            Case { stream: "hungarian", data: json!({"m": m.to_json(), "layout": if i % 4 == 1 { "f" } else { "c" }}) }
         })
         .collect()
 }
 
 pub fn run_hungarian(data: &Value) -> Vec<Line> {
     let m = Matrix::from_json(&data["m"]);
-    let w = ndarray::Array2::from_shape_vec([m.nx, m.ny], m.w.clone()).unwrap();
+    let w = if data["layout"].as_str() == Some("f") {
+        use ndarray::ShapeBuilder;
+        let mut col = vec![0i32; m.nx * m.ny];
+        for x in 0..m.nx {
+            for y in 0..m.ny {
+                col[y * m.nx + x] = m.w[x * m.ny + y];
+            }
+        }
+        ndarray::Array2::from_shape_vec((m.nx, m.ny).f(), col).unwrap()
+    } else {
+        ndarray::Array2::from_shape_vec([m.nx, m.ny], m.w.clone()).unwrap()
+    };
     let (d, ma, sx, sy) = (
         ndarray::Array1::from_vec(m.dummy.clone()),
         ndarray::Array1::from_vec(m.mand.clone()),
